@@ -88,24 +88,39 @@ class ImportConverter:
                 )  # type: ignore
         elif isinstance(module, ast.ImportFrom):
             if module.level == 0:
-                new_imports = [
-                    AbsoluteImport(
-                        module_name,
-                        self._adjust_with_root_prefix(
-                            module.module,  # type: ignore
-                            absolute_import_prefix,
-                            all_internal_modules,
-                        ),
+                base_module = self._adjust_with_root_prefix(
+                    module.module,  # type: ignore
+                    absolute_import_prefix,
+                    all_internal_modules,
+                )
+                # "from P import n": n is either a sub module of P or an object defined in P
+                importees = []
+                for alias in module.names:
+                    sub_module = f"{base_module}.{alias.name}"
+                    importee = (
+                        sub_module if sub_module in all_internal_modules else base_module
                     )
+                    if importee not in importees:
+                        importees.append(importee)
+                new_imports = [
+                    AbsoluteImport(module_name, importee) for importee in importees
                 ]
             else:
                 new_imports = []
                 for alias in module.names:
-                    new_imports.append(
-                        RelativeImport(
-                            module_name, module.module, alias.name, module.level
-                        )
+                    relative_import = RelativeImport(
+                        module_name, module.module, alias.name, module.level
                     )
+                    if module.module is not None:
+                        sub_module_import = RelativeImport(
+                            module_name,
+                            f"{module.module}.{alias.name}",
+                            None,
+                            module.level,
+                        )
+                        if sub_module_import.importee() in all_internal_modules:
+                            relative_import = sub_module_import
+                    new_imports.append(relative_import)
 
         return new_imports
 
